@@ -135,6 +135,43 @@ func cmdCheck(args []string) int {
 		fmt.Printf("UNDECIDED: cannot load %s: %v\n", *repo, err)
 		return 2
 	}
+	var inlineNotes []string
+	if !*recBase {
+		if res := planInline(P, ov); res != nil {
+			inlineNotes = res.Notes
+			if os.Getenv("PDSA_DUMP_INLINE") != "" && len(res.Overlay) == 0 {
+				for _, n := range res.Notes {
+					fmt.Println("inline:", n)
+				}
+			}
+			if len(res.Overlay) > 0 {
+				merged := map[string][]byte{}
+				for k, v := range ov {
+					merged[k] = v
+				}
+				for k, v := range res.Overlay {
+					merged[k] = v
+				}
+				if os.Getenv("PDSA_DUMP_INLINE") != "" {
+					for _, n := range res.Notes {
+						fmt.Println("inline:", n)
+					}
+					for k, v := range res.Overlay {
+						fmt.Printf("---- expanded %s ----\n%s\n", k, v)
+					}
+				}
+				inv := P.inventory()
+				P = nil
+				P2, err := loadProg(*repo, *tier == "thorough", merged)
+				if err != nil {
+					fmt.Printf("UNDECIDED: cannot load %s with new helpers expanded: %v\n", *repo, err)
+					return 2
+				}
+				P = P2
+				_ = inv
+			}
+		}
+	}
 	P.LoadS = time.Since(start).Seconds()
 	exit := 0
 	for _, id := range ids {
@@ -143,7 +180,10 @@ func cmdCheck(args []string) int {
 		registry[id].Run(c)
 		extra := map[string]interface{}{"load_s": P.LoadS}
 		if len(renamesSeen) > 0 {
-			extra["subjects_resolved_by_fingerprint"] = renamesSeen
+			extra["subjects_resolved_by_fingerprint"] = dedupe(renamesSeen)
+		}
+		if len(inlineNotes) > 0 {
+			extra["new_helpers_expanded"] = inlineNotes
 		}
 		if *tier == "thorough" && !*noMut && *overlay == "" {
 			runMutants(c, *repo, *verif, extra)
@@ -162,7 +202,7 @@ func cmdCheck(args []string) int {
 		}
 	}
 	if *recBase {
-		if err := writeRecordedBaseline(*verif); err != nil {
+		if err := writeRecordedBaseline(*verif, P.inventory()); err != nil {
 			fmt.Println("cannot write baseline:", err)
 			return 2
 		}
@@ -209,4 +249,16 @@ func (c *Ctx) finishQuiet() int {
 		return 2
 	}
 	return 0
+}
+
+func dedupe(in []string) []string {
+	seen := map[string]bool{}
+	var out []string
+	for _, s := range in {
+		if !seen[s] {
+			seen[s] = true
+			out = append(out, s)
+		}
+	}
+	return out
 }
